@@ -8,7 +8,7 @@
    tar, yaml, json, ini, base64) are not modelled; they are exercised by the
    harness's malformed streams (exploration, not proof). *)
 From Apko Require Import Base.Prelude Base.C16Lib Model.Formats Model.Parsers Spec.ParsersSpec
-  Proofs.ParsersProofs Generated.FieldLetters Generated.Regexes.
+  Proofs.ParsersProofs Proofs.ReadersProofs Proofs.SortTermination Generated.FieldLetters Generated.Regexes Generated.C15Sites.
 
 (* ParsePackageIndex: for every base64 decoder, every token limit and every input *)
 Theorem c15_no_panic_parse_index : forall dec s, Returns (parse_index dec s).
@@ -73,9 +73,167 @@ Theorem c15_sort_headers_self_child_refuted : forall fuel,
 Proof. exact sort_children_dot_diverges. Qed.
 Print Assumptions c15_sort_headers_self_child_refuted.
 
+(* ======================================================================== *)
+(* Session 3: more readers inside the model (Model/Parsers.v, second half).   *)
+
+(* readReleaseData (os-release): every byte string, with the token limit the source has *)
+Theorem c15_no_panic_read_release : forall s, Returns (read_release s).
+Proof. intro s. exact (read_release_max_returns release_max_token s). Qed.
+Print Assumptions c15_no_panic_read_release.
+
+(* GetRepositoryIndexes, "@tag url" lines: parts[0][1:] and parts[1] behind len(parts) < 2.
+   Safe because strings.Fields never returns an empty field and "@" is no white space:
+   both are proved of the model of Fields (UTF-8 aware), not assumed. *)
+Theorem c15_no_panic_repo_line : forall line, Returns (repo_line line).
+Proof. exact repo_line_returns. Qed.
+Print Assumptions c15_no_panic_repo_line.
+Theorem c15_fields_never_empty : forall s, Forall (fun f => f <> ""%string) (go_fields s).
+Proof. exact go_fields_nonempty. Qed.
+Print Assumptions c15_fields_never_empty.
+
+(* unify's constraint splitter: orig[:idx], orig[idx:] with idx from strings.IndexAny *)
+Theorem c15_no_panic_unify_split : forall orig, Returns (unify_split orig).
+Proof. exact unify_split_returns. Qed.
+Print Assumptions c15_no_panic_unify_split.
+Theorem c15_index_any_in_range : forall chars s i, index_any chars s = Some i -> (i < String.length s)%nat.
+Proof. exact index_any_bound. Qed.
+Print Assumptions c15_index_any_in_range.
+(* unify reads inputs[0]: safe with at least one architecture; the missing part: with
+   original packages and NO architecture it panics (c15_unify_no_input_refuted). The
+   command line never calls it so (it falls back to all architectures); the exported
+   LockImageConfiguration can. *)
+Theorem c15_unify_first_input_partial : forall n_orig n_inputs, (1 <= n_inputs)%nat -> Returns (unify_inputs n_orig n_inputs).
+Proof. exact unify_inputs_returns. Qed.
+Print Assumptions c15_unify_first_input_partial.
+Theorem c15_unify_no_input_refuted : exists n_orig, unify_inputs n_orig 0 = Panic.
+Proof. exists 1%nat. exact (unify_inputs_empty_panics 1 (le_n 1)). Qed.
+Print Assumptions c15_unify_no_input_refuted.
+Theorem c15_no_panic_lock_provided : forall n_parts len0, Returns (lock_provided_skel n_parts len0).
+Proof. exact lock_provided_skel_returns. Qed.
+Print Assumptions c15_no_panic_lock_provided.
+
+(* checksumFromHeader: every record value, every pair of decoders; the three copies in the
+   source all test and trim "Q1" and contain no index or slice expression *)
+Theorem c15_no_panic_checksum_from_header : forall b64 hex pax, Returns (checksum_from_header b64 hex pax).
+Proof. intros. exact (checksum_from_header_with_returns b64 hex "Q1" "Q1" pax). Qed.
+Print Assumptions c15_no_panic_checksum_from_header.
+Theorem c15_checksum_header_copies_pinned :
+  map snd checksum_header_copies = [("Q1", "Q1", []); ("Q1", "Q1", []); ("Q1", "Q1", [])]%string.
+Proof. reflexivity. Qed.
+Print Assumptions c15_checksum_header_copies_pinned.
+
+(* ExpandApk: for EVERY number of gzip members (not only those the loop can produce) the
+   switch read from the source yields indices inside the three slices or an error *)
+Theorem c15_no_panic_expand_indices : forall n, Returns (expand_select n).
+Proof. exact expand_select_returns. Qed.
+Print Assumptions c15_no_panic_expand_indices.
+(* ... the same for any table that passes the test [table_safe], which the source's does *)
+Theorem c15_expand_table_safe : table_safe expand_switch expand_switch_default_errors expand_sig_guarded = true.
+Proof. exact expand_table_safe. Qed.
+Print Assumptions c15_expand_table_safe.
+(* the member loop and the selection together, on every sequence of members *)
+Theorem c15_no_panic_expand_apk : forall ms garbage, Returns (expand_apk ms garbage).
+Proof. exact expand_apk_returns. Qed.
+Print Assumptions c15_no_panic_expand_apk.
+Theorem c15_expand_member_count : forall ms garbage n,
+  expand_loop ms garbage None (-1)%Z (Z.of_nat (fst expand_max_streams)) O = Ok n -> (n <= 3)%nat.
+Proof. exact expand_count_bound. Qed.
+Print Assumptions c15_expand_member_count.
+
+(* Split returns two or three parts; ParsePackageInfo's split[0] / split[1] are in range *)
+Theorem c15_no_panic_split_pkginfo : forall ms n, split_parts ms = Ok n -> Returns (pkginfo_select n).
+Proof. exact pkginfo_after_split. Qed.
+Print Assumptions c15_no_panic_split_pkginfo.
+
+(* parseInstalledPerms, the signature-name test and b[readBytes:] of parseRepositoryIndex,
+   ParseArchitectures *)
+Theorem c15_no_panic_parse_installed_perms : forall s, Returns (parse_perms s).
+Proof. exact parse_perms_returns. Qed.
+Print Assumptions c15_no_panic_parse_installed_perms.
+Theorem c15_no_panic_signature_name : forall matched, Returns (sig_name_skel matched).
+Proof. exact sig_name_skel_returns. Qed.
+Print Assumptions c15_no_panic_signature_name.
+Theorem c15_no_panic_index_data_slice : forall size pos, Returns (index_data_slice size pos).
+Proof. exact index_data_slice_returns. Qed.
+Print Assumptions c15_no_panic_index_data_slice.
+Theorem c15_no_panic_parse_archs : forall n, Returns (parse_archs_skel n).
+Proof. exact parse_archs_skel_returns. Qed.
+Print Assumptions c15_no_panic_parse_archs.
+
+(* the index / slice expressions and length guards of the transcribed functions, as the
+   source has them today (names of locals erased): an edit that adds, removes or changes one
+   makes this statement false, and the search for a failing input starts *)
+Theorem c15_sites_pinned :
+  (repo_line_sites, repo_line_len_guards) = (["_[0][1:]"; "_[0]"; "_[1]"], ["len(_) < 2"])%string /\
+  (unify_sites, unify_trim_suffix_calls) = (["_[:_]"; "_[_:]"; "_[_:]"; "_[0]"; "_[0]"; "_[0]"; "_[1:]"], 2%nat)%string /\
+  (lock_provides_sites, lock_provides_len_guards) = (["_[0]"; "_[0][1]"; "_[0]"], ["len(_) == 0"; "len(_[0]) < 2"])%string /\
+  (pkginfo_sites, pkginfo_len_guards, split_appends) = (["_[0]"; "_[1]"], ["len(_) == 3"], (2, 1)%nat)%string /\
+  (perms_sites, perms_len_guards) = (["_[0]"; "_[1]"; "_[2]"], ["len(_) != 3"])%string /\
+  (repo_index_sites, repo_index_len_guards) = (["_[2]"; "_[1]"; "_[_:]"], ["len(_) == 0"; "len(_) != 3"; "len(_) == 0"])%string /\
+  (parse_archs_sites, parse_archs_len_guards) = (["_[0]"; "_[0]"; "_[0]"], ["len(_) == 1"; "len(_) == 1"])%string /\
+  (release_sites, release_len_guards, release_sets_scanner_buffer) = ([], [], false) /\
+  (expand_signed_cond, expand_sig_index_guarded, expand_max_streams, expand_sign_prefix) = ("sig >= 0", (3, 0)%nat, (2, 3)%nat, ".SIGN.")%string.
+Proof. repeat split. Qed.
+Print Assumptions c15_sites_pinned.
+
+(* ---- the scanner's token limit: a line that does not fit (with its terminator) in the
+   limit the source sets is an ERROR of the reader, never a silently shortened result
+   (this was finding C16-F4 for ParseInstalled, fixed by a01caf8) ---------------------- *)
+Theorem c15_long_line_is_error_index : forall dec s, too_long index_max_token s -> parse_index dec s = Err.
+Proof. intros dec s. exact (long_line_index dec index_max_token s eq_refl). Qed.
+Print Assumptions c15_long_line_is_error_index.
+Theorem c15_long_line_is_error_installed : forall dec s, too_long installed_max_token s -> parse_installed dec s = Err.
+Proof. intros dec s. exact (long_line_installed dec installed_max_token s eq_refl). Qed.
+Print Assumptions c15_long_line_is_error_installed.
+Theorem c15_long_line_is_error_users : forall s, too_long default_max_token s -> load_users s = Err.
+Proof. intro s. exact (long_line_load_file parse_user default_max_token s parse_user_returns). Qed.
+Print Assumptions c15_long_line_is_error_users.
+Theorem c15_long_line_is_error_groups : forall s, too_long default_max_token s -> load_groups s = Err.
+Proof. intro s. exact (long_line_load_file parse_group default_max_token s parse_group_returns). Qed.
+Print Assumptions c15_long_line_is_error_groups.
+Theorem c15_long_line_is_error_release : forall s, too_long release_max_token s -> read_release s = Err.
+Proof. intro s. exact (long_line_release release_max_token s eq_refl). Qed.
+Print Assumptions c15_long_line_is_error_release.
+Example c15_too_long_satisfiable : forall max, (1 <= max)%N -> too_long max (srepeat "x" (N.to_nat max)).
+Proof. exact too_long_example. Qed.
+
+(* ---- no loop without consuming input: the only fuel in C15's models is the one of
+   sortTarHeaders. On EVERY header list without an entry whose cleaned name is ".", and for
+   every order in which Go ranges over the map, the fuel S (S (len headers)) suffices. The
+   excluded shape is exactly c15_sort_headers_self_child_refuted (finding C15-F4). ------------- *)
+Theorem c15_consumes_sort_headers : forall hs ord,
+  (forall h, In h hs -> clean (h_name h) <> "."%string) -> Returns (sort_headers_ord ord hs).
+Proof. intros hs ord H. exact (sort_headers_ord_returns hs H ord). Qed.
+Print Assumptions c15_consumes_sort_headers.
+(* the proposed repair (fixes/C15-F4.patch: skip entries whose cleaned name is "."):
+   ends on every list, and equals today's function wherever today's function is safe *)
+Theorem c15_sort_headers_fix_terminates : forall hs, Returns (sort_headers_fixed hs).
+Proof. exact sort_headers_fixed_returns. Qed.
+Print Assumptions c15_sort_headers_fix_terminates.
+Theorem c15_sort_headers_fix_conservative : forall hs,
+  (forall h, In h hs -> clean (h_name h) <> "."%string) -> sort_headers_fixed hs = sort_headers hs.
+Proof. exact sort_headers_fixed_same. Qed.
+Print Assumptions c15_sort_headers_fix_conservative.
+
 (* non-vacuity: the readers do return results on well-formed input *)
 Example c15_parse_installed_example :
   exists r, parse_installed (fun _ => None) ("P:a" +++ s_nl +++ "F:usr" +++ s_nl +++ "M:0:0:0700" +++ s_nl +++ s_nl) = Ok r /\ List.length r = 1%nat.
 Proof. eexists. split; [vm_compute; reflexivity | reflexivity]. Qed.
 Example c15_fixed_P_newline : parse_installed (fun _ => None) ("P" +++ s_nl) = Err.
+Proof. vm_compute. reflexivity. Qed.
+Example c15_read_release_example :
+  read_release ("ID=alpine" +++ s_nl +++ "# c" +++ s_nl +++ "NAME=""Alpine Linux""" +++ s_nl) = Ok (mkRel "alpine" "Alpine Linux" "" "").
+Proof. vm_compute. reflexivity. Qed.
+Example c15_repo_line_example : repo_line ("@edge" +++ sb [194;160]%N +++ "https://r/x  extra") = Ok ("edge", "https://r/x")%string.
+Proof. vm_compute. reflexivity. Qed.
+Example c15_unify_split_example : unify_split "busybox>=1.36@edge" = Ok ("busybox", ">=1.36", "@edge")%string.
+Proof. vm_compute. reflexivity. Qed.
+Example c15_expand_examples :
+  expand_apk [MSign; MPlain; MPlain] false = Ok true /\ expand_apk [MPlain; MPlain] false = Ok false /\
+  expand_apk [MPlain] false = Err /\ expand_apk [] false = Err /\ expand_apk [MSign; MPlain] false = Ok false /\
+  expand_select 1 = Err /\ expand_select (-1) = Err /\ expand_select 4 = Err.
+Proof. vm_compute. repeat split. Qed.
+Example c15_sort_fix_example :
+  sort_headers_fixed [dot_dir; mkHdr "./usr/" true 493 0 0 ""; mkHdr "./usr/x" false 420 0 0 ""] =
+  Ok [mkHdr "./usr/" true 493 0 0 ""; mkHdr "./usr/x" false 420 0 0 ""].
 Proof. vm_compute. reflexivity. Qed.
